@@ -60,6 +60,7 @@ type FuncVer struct {
 	siteOrd    map[string]map[token.Pos]bool
 	stepBudget int
 	heapSorts  map[string]*Sort
+	heapTypes  map[string]types.Type
 	ghostLocals map[string]*ghostLocal
 	pointees    map[string]pointee
 	trustedCalls map[string]bool // callees whose preconditions are assumed, not proved, at this function's call sites
@@ -326,7 +327,10 @@ func (fv *FuncVer) step(st *State, ins ssa.Instruction) bool {
 	case *ssa.DebugRef:
 	case *ssa.Alloc:
 		et := x.Type().(*types.Pointer).Elem()
-		if x.Heap {
+		_, holdsFunc := types.Unalias(et).Underlying().(*types.Signature)
+		// a captured variable of function type holds a closure, which has no SMT value: keep
+		// it in a cell (it is only reached through the variable or a closure binding)
+		if x.Heap && !holdsFunc {
 			r := fv.newRef(st)
 			l := &Loc{Kind: rootHeap, Ref: r, Typ: et, ElTyp: et}
 			fv.store(st, l, c.Zero(et))
